@@ -1,8 +1,10 @@
 ---------------------------- MODULE MCRootGather ----------------------------
 (* Bounded instance of RootGather: every non-empty set of targets out of     *)
 (* Leaves, every assignment of answer kinds, every interleaving of the sends *)
-(* (any order) with the handling of the answers (also between two sends,     *)
-(* also never: timeout), the completion wherever it is enabled.              *)
+(* (any order) with the two parts of the handling of the answers (also       *)
+(* between two sends, also never: timeout; in one critical section or -- the *)
+(* deviation CountThenMerge -- in two, other handlers and the completion in  *)
+(* between), the completion wherever it is enabled.                          *)
 EXTENDS RootGather
 
 CONSTANT Leaves
@@ -10,7 +12,7 @@ CONSTANT Leaves
 MCNext ==
   \/ \E T \in (SUBSET Leaves) \ {{}} : \E K \in [T -> Kinds] : Setup(K)
   \/ Plan(DOMAIN kinds)
-  \/ \E t \in Leaves : Send(t) \/ Answer(t)
+  \/ \E t \in Leaves : Send(t) \/ AnswerCount(t) \/ AnswerMerge(t)
   \/ Result
   \/ Timeout
 MCSpec == Init /\ [][MCNext]_vars
